@@ -9,6 +9,8 @@ A history (JSON-able) is
                 ["OC", t] | ["RC", t]],                      observation.cancel() / response.cancel()
      "eb_cancels": bool,                    # the application's errback calls observation.cancel() on the
                                             # observation it is being told the end of
+     "tuning": None | "instance" | "Reliable" | "Unreliable" | "subclass" | "latency" | ["reset", s] | ["class-reset", s],
+                                            # the request's transport_tuning as the application passes it, see TUNINGS
      "iter": None | {"mode": "attentive"|"lazy"|"busy", "start": i, "work": k}}   async-iterator consumer
          (`async for` over request.observation, opened just before event `start`): "attentive" gets
          three event-loop iterations after every event, "lazy" is not scheduled at all until all
@@ -27,6 +29,44 @@ import logging
 TICK = 2.0 ** -20
 EXC_NAMES = ["MessageError", "ConRetransmitsExceeded", "NetworkError", "LibraryShutdown",
              "ConToMulticast", "RuntimeError"]
+
+
+# The request's `transport_tuning` as an application passes it.  The library documents (and aiocoap-client, the
+# deprecation text of Message(mtype=...) and the library's own tests use) the CLASSES `aiocoap.Reliable` /
+# `aiocoap.Unreliable` as well as instances; subclasses tune single constants.  Only a tuning that itself sets
+# OBSERVATION_RESET_TIME changes the "128 s" of RFC 7641 section 3.4 -- a tuning of other constants (MAX_LATENCY ...) does not.
+TUNINGS = [None, "instance", "Reliable", "Unreliable", "Reliable()", "subclass", "latency",
+           ["reset", 60], ["reset", 200], ["class-reset", 60]]
+
+
+def make_tuning(aiocoap, kind):
+    from aiocoap.numbers.constants import TransportTuning
+    if kind is None:
+        return None                                    # Message() without tuning
+    if kind == "instance":
+        return TransportTuning()
+    if kind == "Reliable":
+        return aiocoap.Reliable                        # the class itself
+    if kind == "Unreliable":
+        return aiocoap.Unreliable
+    if kind == "Reliable()":
+        return aiocoap.Reliable()
+    if kind == "subclass":                             # an application's own tuning, passed as a class
+        return type("AppTuning", (TransportTuning,), {"ACK_TIMEOUT": 3.0, "MAX_RETRANSMIT": 3})
+    if kind == "latency":                              # a slow network: other constants tuned, not the reset time
+        return type("SlowNetTuning", (TransportTuning,), {"MAX_LATENCY": 300.0, "ACK_TIMEOUT": 5.0})()
+    if kind[0] == "reset":
+        return type("ResetTuning", (TransportTuning,), {"OBSERVATION_RESET_TIME": kind[1]})()
+    if kind[0] == "class-reset":
+        return type("ResetTuning", (TransportTuning,), {"OBSERVATION_RESET_TIME": kind[1]})
+    raise AssertionError(kind)
+
+
+def tuned_reset_ticks(kind, default):
+    """the reset time a request with this tuning is subject to, in ticks: what the application set, else `default`"""
+    if isinstance(kind, (list, tuple)):
+        return kind[1] << 20
+    return default
 
 
 class Clock:
@@ -78,7 +118,7 @@ class Bench:
         """-> dict(groups=[(deliveries, ended)], impl=str, raw=[...], iter=[...], escaped=[...])"""
         A = self.aiocoap
         loop = asyncio.get_running_loop()
-        req_msg = A.Message(code=A.GET)
+        req_msg = A.Message(code=A.GET, transport_tuning=make_tuning(A, h.get("tuning")))
         if h["observe"]:
             req_msg.opt.observe = 0
         pipe = self.Pipe(req_msg, self.log)
@@ -218,6 +258,9 @@ def driver_line(reset, h):
             toks.append(f"X@{ev[1]}:{ev[2]}")
         else:
             toks.append(f"{ev[0]}@{ev[1]}")
+    # (the model's `reset` is what the code reads from the request's tuning: the application's value where it set
+    # one, the implementation's default -- read once from a default TransportTuning() -- otherwise)
+    reset = tuned_reset_ticks(h.get("tuning"), reset)
     return f"C07 R {reset} {1 if h['observe'] else 0} " + " ".join(toks)
 
 
@@ -230,14 +273,14 @@ RFC_RESET_TICKS = 128 * (1 << 20)
 HALF = 1 << 23
 
 
-def rfc_fresher(v1, t1, v2, t2):
+def rfc_fresher(v1, t1, v2, t2, reset=RFC_RESET_TICKS):
     """RFC 7641 §3.4: (V1 < V2 and V2 - V1 < 2^23) or (V1 > V2 and V1 - V2 > 2^23) or
-    (T2 > T1 + 128 seconds)"""
+    (T2 > T1 + 128 seconds) -- `reset` differs from 128 s only where the application's own tuning says so"""
     if v1 < v2 and v2 - v1 < HALF:
         return True
     if v1 > v2 and v1 - v2 > HALF:
         return True
-    return t2 > t1 + RFC_RESET_TICKS
+    return t2 > t1 + reset
 
 
 def is_notification(code, obs):
@@ -266,6 +309,7 @@ def oracle_history(h, res):
     `async for` over it ends), later it changes nothing."""
     evs = h["events"]
     Err = res["Error"]
+    reset = tuned_reset_ticks(h.get("tuning"), RFC_RESET_TICKS)
     app_events = any(ev[0] in ("OC", "RC") or cancels(ev) for ev in evs) or bool(h.get("eb_cancels"))
     misused_at = set()
     for i, n in res["escaped"]:
@@ -419,7 +463,7 @@ def oracle_history(h, res):
                 return "observation over, but the pipe still has interest", "not-ended"
             continue
         v2 = ev[3]
-        fresh = rfc_fresher(last[0], last[1], v2, t)
+        fresh = rfc_fresher(last[0], last[1], v2, t, reset)
         cbs = [d for d in dels if d[0] == "cb"]
         if fresh:
             if len(cbs) != 1 or cbs[0][1] is not obj or kinds[0] != "cb":
